@@ -340,7 +340,7 @@ def wrapped_cases(cfg, ordinary=False):
             "pool": st.lists(name_st, min_size=30, max_size=40),
             "suffix_pair": st.sampled_from([None, None] + SUFFIXES),
             "flip_order": st.booleans(),
-            "force_table": st.one_of(st.none(), st.none(), st.none(), st.sampled_from(case_variants)),
+            "force_table": st.one_of(st.none(), st.sampled_from(case_variants)),
             "force_idx": st.sampled_from(range(4)),
         }
     )
@@ -407,4 +407,4 @@ def run(ctx):
     ctx.campaign("ordinary_names", wrapped_cases(ocfg, ordinary=True), oracle, max_examples=ctx.n(200, 24000))
     jcfg = dict(cfg)
     jcfg.update({"ops": {"natural_join": 10, "extend": 2, "select_rows": 1, "project": 1, "window": 0, "ordered_window": 0, "concat_rows": 1, "convert_records": 0}, "max_nodes": 4, "n_tables": (2, 2), "final_order": 0.1, "force_cols": ["g"], "force_cols_nullable": True, "nullable_join_key_prob": 0.9, "max_rows": 4})
-    ctx.campaign("join_scratch", join_scratch_cases(jcfg), oracle, max_examples=ctx.n(400, 24000))
+    ctx.campaign("join_scratch", join_scratch_cases(jcfg), oracle, max_examples=ctx.n(600, 24000))
